@@ -39,6 +39,15 @@ class Deadlock(Exception):
     pass
 
 
+class LogicalClock:
+    """Time as the Condition code sees it (`_time`): it advances only when the scheduler lets a timed wait expire."""
+    now = 0.0
+
+    @classmethod
+    def time(cls):
+        return cls.now
+
+
 class Scheduler:
     """Baton-passing scheduler.  Workers call yield_point(op) before every blocking primitive."""
 
@@ -130,6 +139,7 @@ class Worker:
         self.my_lock = None
         self.fail = 0
         self.refused = 0
+        self.timeouts = 0
         self.key = None
 
     def _run(self):
@@ -150,7 +160,8 @@ class Worker:
 def op_enabled(op):
     kind = op[0]
     if kind == "acq":
-        return not op[1]._locked
+        # a blocked acquire WITH a timeout can always move: the scheduler may let the time-out expire
+        return (not op[1]._locked) or (len(op) > 2 and op[2] is not None)
     if kind == "flock":
         return bool(op[4]) or op[1].compatible_fd(op[2], op[3])     # an injected fault returns at once
     return True                     # rel, close
@@ -192,10 +203,15 @@ class CoopLock:
             self.owner = None
             self.acquired += 1
             return True
+        timed = timeout if (timeout is not None and timeout >= 0) else None
         if not self.private:
-            sched.yield_point(("acq", self))
+            sched.yield_point(("acq", self, timed))
         if w.abort:
             raise Aborted()
+        if self._locked and timed is not None:
+            LogicalClock.now += timed          # scheduled while the lock is taken: the time-out expires
+            w.timeouts += 1
+            return False
         assert not self._locked
         self._locked = True
         self.owner = w.idx
@@ -232,7 +248,7 @@ def make_condition_class():
     if _COND_CLASS:
         return _COND_CLASS[0]
     src = inspect.getsource(_real_threading.Condition)
-    ns = {"_allocate_lock": CoopLock, "_deque": collections.deque, "_time": time.monotonic, "RLock": None}
+    ns = {"_allocate_lock": CoopLock, "_deque": collections.deque, "_time": LogicalClock.time, "RLock": None}
     exec(compile(src, "<threading.Condition over CoopLock>", "exec"), ns)
     _COND_CLASS.append(ns["Condition"])
     return ns["Condition"]
@@ -432,7 +448,14 @@ class Patched:
         if self.kernel is not None:
             pathutils.fcntl = FakeFcntl(self.kernel)
             kernel = self.kernel
-            pathutils.open = lambda path, mode="r", *a, **k: FakeFile(kernel, path)
+            def fake_open(path, mode="r", *a, **k):
+                w = CoopLock.sched.current() if CoopLock.sched else None
+                if w is not None and getattr(w, "open_fail", 0) and "/.Radicale.cache/" in str(path):
+                    w.open_fail = 0              # injected fault: the process is out of file descriptors
+                    kernel.fileops.add("open")
+                    raise OSError(24, "Too many open files", str(path))
+                return FakeFile(kernel, path)
+            pathutils.open = fake_open
             from radicale.storage.multifilesystem import lock as lock_mod
             self.lock_mod = lock_mod
             self.saved_os = lock_mod.os
@@ -462,6 +485,9 @@ class Violation(Exception):
 
 
 # ====================================================================================== the three systems
+_COND_TMP = []
+
+
 class CondSystem:
     """The real multifilesystem_nolock.RwLock; programs: per thread a list of (mode, nqueries)."""
     kind = "cond"
@@ -472,7 +498,21 @@ class CondSystem:
         self.patch.__enter__()
         self.sched = Scheduler()
         CoopLock.sched = self.sched
-        self.lock = self.patch.nolock.RwLock()
+        # the lock object as the server builds it: Storage.__init__ of the nolock back-end with the default configuration
+        import logging
+        import tempfile
+        from radicale import config
+        logging.getLogger("radicale").setLevel(logging.CRITICAL)
+        if not _COND_TMP:
+            import atexit
+            import shutil
+            _COND_TMP.append(tempfile.mkdtemp(prefix="rv-c11cond-"))      # one folder per process, removed at exit
+            atexit.register(shutil.rmtree, _COND_TMP[0], True)
+        self.tmp = _COND_TMP[0]
+        conf = config.load()
+        conf.update({"storage": {"type": "multifilesystem_nolock", "filesystem_folder": self.tmp}}, "c11", privileged=True)
+        LogicalClock.now = 0.0
+        self.lock = self.patch.nolock.Storage(conf)._lock
         self.mutex = self.lock._lock
         self.sched.start([self._body(p) for p in progs])
 
@@ -828,6 +868,9 @@ def run_schedule(kind, progs, schedule, monitor=True, extend=False, choose=None)
             raise Violation("run ended with unfinished threads %r" % [w.idx for w in sched.workers if not w.done])
     except Violation as v:
         violation = v.what
+        fired = sum(w.timeouts for w in sched.workers)
+        if fired:
+            violation += " (after %d wait time-out(s) expired on the logical clock)" % fired
     finally:
         sysm.close()
     kern = getattr(sysm, "kernel", None)
@@ -991,16 +1034,23 @@ class CacheSystem:
         import contextlib
 
         def body(w):
-            for key in prog:
+            for cyc in prog:
+                key, fault = (cyc, 0) if isinstance(cyc, int) else (cyc[0], cyc[1])
                 path, ns = CACHE_KEYS[key]
                 w.key = key
                 w.phase = "acquire"
+                w.open_fail = fault          # 1: open() of the cache lock file raises OSError (EMFILE) for this cycle
                 coll = Coll(storage, path)
-                with (storage.acquire_lock(smode, "user") if smode else contextlib.nullcontext()):
-                    with coll._acquire_cache_lock(ns):
-                        w.phase = "cache"
-                        sched.yield_point(("nop",))
-                        w.phase = "release"
+                try:
+                    with (storage.acquire_lock(smode, "user") if smode else contextlib.nullcontext()):
+                        with coll._acquire_cache_lock(ns):
+                            w.phase = "cache"
+                            sched.yield_point(("nop",))
+                            w.phase = "release"
+                except OSError:
+                    if not fault:
+                        raise
+                    w.refused += 1           # the requester is refused with the OSError: it never enters the section
                 w.phase = "idle"
         return body
 
